@@ -89,6 +89,8 @@ def norm(t):
             const = -const
             op = {"<": ">", ">": "<", "<=": ">=", ">=": "<="}.get(op, op)
         lhs = _mk_sum(terms, 0)
+        if lhs[0] in ("new", "addr") and const == 0 and op in ("==", "!="):
+            return C(0 if op == "==" else 1)     # a fresh allocation (on its success path) / a local's address is not NULL
         if _is_bool(lhs) and op in ("==", "!="):
             # boolean-valued term: (b == 1) <=> (b != 0), (b != 1) <=> (b == 0)
             if const == 1:
